@@ -10,11 +10,11 @@ from .strmodel import SymStr, StrSlice
 
 class SemKit:
     def __init__(self):
-        self.mirfiles = [mirdump.dump(c) for c in ("oq3_parser", "oq3_syntax", "oq3_source_file", "oq3_semantics")]
+        self.mirfiles = [mirdump.dump(c) for c in ("oq3_lexer", "oq3_parser", "oq3_syntax", "oq3_source_file", "oq3_semantics")]
         self.prog = Program(self.mirfiles, mirdump.REPO)
         self.models = Models()
         stdmodels.install(self.models, front=True)
-        strmodel.install(self.models); strmodel.install_more(self.models)
+        strmodel.install(self.models); strmodel.install_more(self.models); strmodel.install_strbuf(self.models)
         textmodels.install(self.models)
         treemodel.install(self.models, self.prog)
         from .h_c19 import install_map_models
@@ -127,7 +127,7 @@ def install_misc(models):
             return EnumV("Result", 0, [SV(z3.simplify(z3.Extract(tw - 1, 0, v.e)), tw)])
         return EnumV("Result", 1, [Opaque("TryFromIntError")])
 
-    @R(r"^<T as Into<(u128|f64|bool|u32|usize)>>::into$|^<(u128|u32|usize|bool|f64) as Into<(u128|f64|bool|u32|usize)>>::into$|^<(u128|u64|usize) as From<(u8|u16|u32|u64|usize)>>::from$")
+    @R(r"^<(char|u8) as Into<(char|u8|u32)>>::into$|^<(char|u32) as From<(u8|char)>>::from$|^<T as Into<(u128|f64|bool|u32|usize)>>::into$|^<(u128|u32|usize|bool|f64) as Into<(u128|f64|bool|u32|usize)>>::into$|^<(u128|u64|usize) as From<(u8|u16|u32|u64|usize)>>::from$")
     def _into_prim(ex, c, a):
         return a[0]
 
